@@ -47,13 +47,13 @@ func DecodeEvteSR(hdr BoxHeader, startPos uint64, sr bits.SliceReader) (Box, err
 		if rest <= 0 {
 			break
 		}
-		box, err := DecodeBoxSR(pos, sr)
+		box, inputSize, err := decodeBoxSRAndInputSize(pos, sr)
 		if err != nil {
 			return nil, err
 		}
 		if box != nil {
 			b.AddChild(box)
-			pos += box.Size()
+			pos += inputSize // Size in the input (more than box.Size() when a 64-bit size field is not kept)
 		} else {
 			return nil, fmt.Errorf("no evte child")
 		}
